@@ -1,1 +1,189 @@
-//! reference model: agg
+//! reference model: aggregations on the non-null elements (C11), textbook two-pass definitions.
+use crate::roll::Exp;
+use crate::stats;
+use crate::X;
+
+#[derive(Clone, Copy, Debug, PartialEq)]
+pub enum AggOp {
+    CountValid,
+    CountNone,
+    /// count of elements equal to the value (null counts nulls) — null-aware form
+    VCountValue(X),
+    VFirst,
+    VLast,
+    VSum,
+    VMean,
+    /// (mean, variance) with min_periods
+    VMeanVar(usize),
+    VVar(usize),
+    VStd(usize),
+    VSkew(usize),
+    VKurt(usize),
+    VMax,
+    VMin,
+    VArgmax,
+    VArgmin,
+    /// two-series
+    VCov(usize),
+    VCorr(usize),
+    /// masked: second series is the mask (non-zero = true, null = skip)
+    NVSumFilter,
+    NSumFilter,
+    VMeanFilter(usize),
+    // plain forms (null-free input)
+    CountValue(f64),
+    First,
+    Last,
+    Sum,
+    Mean,
+    NSum,
+    Max,
+    Min,
+    Argmax,
+    Argmin,
+}
+
+impl AggOp {
+    pub fn name(&self) -> &'static str {
+        use AggOp::*;
+        match self {
+            CountValid => "count_valid",
+            CountNone => "count_none",
+            VCountValue(_) => "vcount_value",
+            VFirst => "vfirst",
+            VLast => "vlast",
+            VSum => "vsum",
+            VMean => "vmean",
+            VMeanVar(_) => "vmean_var",
+            VVar(_) => "vvar",
+            VStd(_) => "vstd",
+            VSkew(_) => "vskew",
+            VKurt(_) => "vkurt",
+            VMax => "vmax",
+            VMin => "vmin",
+            VArgmax => "vargmax",
+            VArgmin => "vargmin",
+            VCov(_) => "vcov",
+            VCorr(_) => "vcorr_pearson",
+            NVSumFilter => "n_vsum_filter",
+            NSumFilter => "n_sum_filter",
+            VMeanFilter(_) => "vmean_filter",
+            CountValue(_) => "count_value",
+            First => "first",
+            Last => "last",
+            Sum => "sum",
+            Mean => "mean",
+            NSum => "n_sum",
+            Max => "max",
+            Min => "min",
+            Argmax => "argmax",
+            Argmin => "argmin",
+        }
+    }
+    pub fn binary(&self) -> bool {
+        matches!(self, AggOp::VCov(_) | AggOp::VCorr(_) | AggOp::NVSumFilter | AggOp::NSumFilter | AggOp::VMeanFilter(_))
+    }
+    /// invariant under any permutation of the input
+    pub fn symmetric(&self) -> bool {
+        use AggOp::*;
+        !matches!(self, VFirst | VLast | First | Last | VArgmax | VArgmin | Argmax | Argmin)
+    }
+    pub fn plain(&self) -> bool {
+        use AggOp::*;
+        matches!(self, CountValue(_) | First | Last | Sum | Mean | NSum | Max | Min | Argmax | Argmin)
+    }
+}
+
+fn valid(x: &[X]) -> Vec<f64> {
+    x.iter().filter_map(|v| *v).collect()
+}
+fn fold_max(v: &[f64]) -> f64 {
+    v.iter().cloned().fold(f64::NEG_INFINITY, f64::max)
+}
+fn fold_min(v: &[f64]) -> f64 {
+    v.iter().cloned().fold(f64::INFINITY, f64::min)
+}
+fn e(v: f64) -> Exp {
+    Exp::val(v)
+}
+
+/// model value(s) of an aggregation; `y` is the second series / mask for binary operations
+pub fn agg_model(op: AggOp, x: &[X], y: &[X]) -> Vec<Exp> {
+    use AggOp::*;
+    let v = valid(x);
+    let n = v.len();
+    match op {
+        CountValid => vec![e(n as f64)],
+        CountNone => vec![e((x.len() - n) as f64)],
+        VCountValue(t) => vec![e(match t {
+            None => (x.len() - n) as f64,
+            Some(t) => v.iter().filter(|a| **a == t).count() as f64,
+        })],
+        VFirst | First => vec![Exp::of(v.first().cloned())],
+        VLast | Last => vec![Exp::of(v.last().cloned())],
+        VSum | Sum => vec![if n == 0 { Exp::NULL } else { e(stats::sum(&v)) }],
+        VMean | Mean => vec![Exp::of(stats::mean(&v))],
+        NSum => vec![e(n as f64), if n == 0 { Exp::NULL } else { e(stats::sum(&v)) }],
+        VMeanVar(mp) => {
+            if n < mp.max(2) {
+                // variance needs two observations; the mean is reported together with it (null pair)
+                if n >= mp.max(1) && n < 2 {
+                    // a single observation: mean defined, variance not
+                    vec![Exp { null_ok: true, val: stats::mean(&v), warm: false, any: false }, Exp::NULL]
+                } else {
+                    vec![Exp::NULL, Exp::NULL]
+                }
+            } else {
+                vec![Exp::of(stats::mean(&v)), Exp::of(stats::var(&v))]
+            }
+        }
+        VVar(mp) => vec![if n < mp.max(2) { Exp::NULL } else { Exp::of(stats::var(&v)) }],
+        VStd(mp) => vec![if n < mp.max(2) { Exp::NULL } else { Exp::of(stats::std(&v)) }],
+        VSkew(mp) => vec![if n < mp.max(3) {
+            Exp::NULL
+        } else if stats::is_constant(&v) {
+            Exp::either(0.0)
+        } else {
+            Exp::of(stats::skew(&v))
+        }],
+        VKurt(mp) => vec![if n < mp.max(4) {
+            Exp::NULL
+        } else if stats::is_constant(&v) {
+            Exp::either(0.0)
+        } else {
+            Exp::of(stats::kurt(&v))
+        }],
+        VMax | Max => vec![if n == 0 { Exp::NULL } else { e(fold_max(&v)) }],
+        VMin | Min => vec![if n == 0 { Exp::NULL } else { e(fold_min(&v)) }],
+        VArgmax | Argmax | VArgmin | Argmin => {
+            if n == 0 {
+                return vec![Exp::NULL];
+            }
+            let ext = if matches!(op, VArgmax | Argmax) { fold_max(&v) } else { fold_min(&v) };
+            // index of the FIRST occurrence in the original series
+            vec![e(x.iter().position(|a| *a == Some(ext)).unwrap() as f64)]
+        }
+        CountValue(t) => vec![e(v.iter().filter(|a| **a == t).count() as f64)],
+        VCov(mp) | VCorr(mp) => {
+            let (a, b) = crate::roll::pairs(x, y);
+            if a.len() < mp.max(2) {
+                vec![Exp::NULL]
+            } else if matches!(op, VCov(_)) {
+                vec![Exp::of(stats::cov(&a, &b))]
+            } else {
+                vec![Exp::of(stats::corr(&a, &b))]
+            }
+        }
+        NVSumFilter | NSumFilter | VMeanFilter(_) => {
+            // elements whose mask is non-null and true, then the non-null ones of those
+            let sel: Vec<f64> = x.iter().zip(y).filter(|(_, m)| matches!(m, Some(t) if *t != 0.0)).filter_map(|(a, _)| *a).collect();
+            let k = sel.len();
+            match op {
+                NVSumFilter => vec![e(k as f64), e(stats::sum(&sel))],
+                NSumFilter => vec![if k == 0 { Exp::NULL } else { e(stats::sum(&sel)) }],
+                VMeanFilter(mp) => vec![if k < mp.max(1) { Exp::NULL } else { Exp::of(stats::mean(&sel)) }],
+                _ => unreachable!(),
+            }
+        }
+    }
+}
